@@ -195,7 +195,9 @@ GStepActive(cs, ev, q, tol) ==
                  ELSE IF isMove /\ outside THEN FALSE ELSE cs.ep
         opening == ~cs.ep /\ ep1
         closing == cs.ep /\ ~ep1
-        clean1 == cs.clean /\ know /\ ~(isMove /\ inside)
+        \* only moves can touch a region; a move whose tested points cannot be located (before
+        \* homing, M206, ...) ends the "never touches a region" antecedent for good
+        clean1 == cs.clean /\ (isMove => (know /\ ~inside))
         sc03_1 == cs.sc03 /\ ~(cs.ep /\ (c.code \in {"G28", "M206"}
                                           \/ (c.code = "G92" /\ HasXYZ(c))))
         cyc   == CycleStep(cs, c, g0, g1, isMove)
@@ -375,7 +377,7 @@ AtStep(cs, ev, q, tol, sameState) ==
         mon   == cs.posOK /\ Homed(g) /\ ~(\E k \in 1..nout : outs[k].big)
         checks == <<
           <<"C09", "C09.noraise", ev.res # "exc">>,
-          <<"C14", "C14.nop_sends", (~closing /\ ev.res # "exc") => nout = 0>>,
+          <<"C14", "C14.nop_sends", (mon /\ ~closing /\ ev.res # "exc") => nout = 0>>,
           <<"C14", "C14.nop_state", (acts = <<>>) => sameState>>,
           <<"C11", "C11.idle_at", (~cs.active) => (nout = 0 /\ sameState)>>,
           <<"C14", "C14.close.sync_xy", (mon /\ closing /\ cs.sc03) => SyncXY(p1, g, tol)>>,
